@@ -20,10 +20,10 @@ TEXT = {
  "C13": ("Pool release at any moment (struct freed as put returns -> ASan), drain, start/stop hook pairing per worker thread, every library-created thread exited and joined or detached, owner's iv_main returns without help once everything is gone (a drained released pool or an exited thread that still holds the loop is C13.release); iv_thread_create failing (pthread_create EAGAIN) leaves nothing behind; iv_thread children that return / pthread_exit with and without their own loop keep the creator's iv_main from returning until joined.", "4 C13"),
  "C14": ("The multi-threaded scenario programs (events, raw events, pools, iv_thread, signals, child reaping, concurrent init/deinit) run in a ThreadSanitizer build under the seeded serialising scheduler; the scheduler, harness and simulator are uninstrumented and park threads with raw futexes, so TSan sees only the library's own synchronisation; application-level hand-offs and the kernel's sigaction->handler ordering are declared explicitly; what the kernel stores into the library's buffers (epoll events, read data, signal masks) is declared as a write of the calling thread; only the named one-way feature flags are suppressed; inotify instances in loop threads of their own are included.", "4 C14"),
  "C15": ("Fault enumeration: for each seeded base plan, every k-th wait of every loop thread fails with EINTR (at entry and at wake-up), and every optional facility (epoll_pwait2 ENOSYS/EPERM, ppoll, epoll_create1, timerfd_create, eventfd2 EINVAL/ENOSYS, eventfd, pipe2, splice) is absent from call 1 and from every k-th call; every oracle of the other properties must hold in every run of this check, fault variants and fault-free base runs alike (poll method and exclusion style are drawn per plan); the k-th read of the library's own wake-up descriptors fails with EINTR / EAGAIN for every k; the four poll methods and exclusion-string styles are drawn per plan.", "4 C15"),
- "C17": ("Producer and consumer drivers move a seeded pseudo-random stream through 1-3 pumps (some plans: 21-26 back-pressured pumps at once, more than the per-thread buffer cache holds) between pipes and sockets (splice and read/write mode, short transfers, shrunk pipes, injected errors, back-pressure, EOF at any offset): bytes received are at all times a prefix of bytes produced, EOF only after the last byte, return codes and requested bands checked against the public state after every call, no-progress invocation storms, completion at quiescence after the consumer drained; the application also calls the pump on its own (after set-up, from a recurring timer); is_done() agrees with the return value; RELAY_EOF on a socket output has shut it down when the pump reports done.", "4 C17"),
+ "C17": ("Producer and consumer drivers move a seeded pseudo-random stream through 1-3 pumps (some plans: 21-26 back-pressured pumps at once, more than the per-thread buffer cache holds) between pipes and sockets (splice and read/write mode, short transfers, shrunk pipes, injected errors, a buffer pipe that cannot be had (EMFILE at pipe2), back-pressure, EOF at any offset): bytes received are at all times a prefix of bytes produced, EOF only after the last byte, return codes and requested bands checked against the public state after every call, no-progress invocation storms, completion at quiescence after the consumer drained; the application also calls the pump on its own (after set-up, from a recurring timer); is_done() agrees with the return value; RELAY_EOF on a socket output has shut it down when the pump reports done.", "4 C17"),
  "C18": ("Every simulated run of every scenario executes under ASan+UBSan with each object freed at the earliest legal moment; the library allocation ledger and descriptor ledger must be empty whenever no thread holds library state, across init/deinit cycles and thread exits with and without iv_deinit; O_NONBLOCK/FD_CLOEXEC after registration.", "4 C18"),
  "C19": ("popen requests over simulated children (exit at once / on first SIGTERM / ignore SIGTERM / after the n-th signal with delay / between two signals / stopped meanwhile) with the close before, during and after the child's end: the signals the child receives must be SIGTERM x5 then SIGKILL at 5 s steps of virtual time from the close until it ends, none after the reap, no zombie, loop released (C19.release); submissions whose pipe() or fork() fails leave no descriptor, memory or loop object behind.", "4 C19"),
- "C20": ("Real inotify on a scratch tmpfs tree: the exact bytes every read() returned to the library are parsed independently and walked against the model's live-watch set; the handler sequence must match record for record (watch, wd, mask, cookie, name), with watches / other watches / the instance unregistered or registered from inside handlers, one-shot and kernel-removed watches, bursts giving many records per read.", "4 C20"),
+ "C20": ("Real inotify on a scratch tmpfs tree: the exact bytes every read() returned to the library are parsed independently and walked against the model's live-watch set; the handler sequence must match record for record (watch, wd, mask, cookie, name), with watches / other watches / the instance unregistered or registered from inside handlers, one-shot and kernel-removed watches, bursts giving many records per read, floods that overflow the kernel queue (an overflow record that belongs to no watch), instances in loop threads of their own, failing inotify_init / inotify_add_watch.", "4 C20"),
 }
 NOTE = "Trusted base: the running Linux kernel's epoll/poll/eventfd/pipe/socket semantics (real), glibc, the sanitizer run-times, and the simulator's own models of time, timerfd, signals and child processes (sim/simk.c). Context switches only at intercepted libc calls. Sampling, not proof."
 NA = {
